@@ -51,3 +51,16 @@ Example C06_defaults : map (slot 500 16 7) [0;1;2;3;4;5;6;7] = [0;500;1500;3500;
 Proof. vm_compute. reflexivity. Qed.
 Example C06_reliable : map (slot 5000 1 1) [0;1] = [0;5000].
 Proof. vm_compute. reflexivity. Qed.
+
+(* ---- the property in exactly the form in which the implementation is judged: the spec monitor of this property
+   (Agent/Monitors.v, written from the property text; it runs on every observed call of the implementation) accepts EVERY
+   step of EVERY well-formed history of the model (fresh transaction ids, monotone instants, positive RTO), for every
+   configuration. `obs_of` (Proofs/AgentMeets.v) builds the observation of a model step the way ocaml/driver.ml builds it
+   from the implementation's output; run_mon runs model and monitors in lockstep; every step is judged (run_mon_judged). *)
+From Rustun Require Import Agent.Rto Agent.Model Agent.Monitors Proofs.AgentMeets.
+Theorem C06_model_meets_monitor : forall (cf:config) (m:mech) (mc:mcfg) (cc:ccfg) (ops:list op),
+  consistent mc cf -> well_formed_history ops -> verdicts_true 6 (run_mon mc cc (init cf m) (mall0 cc) ops).
+Proof. exact AgentMeets.model_meets_C06. Qed.
+Print Assumptions C06_model_meets_monitor.
+Theorem C06_every_step_judged : forall mc cc ops c s vs, In vs (run_mon mc cc c s ops) -> exists b cl, In (6%N, b, cl) vs.
+Proof. intros mc cc ops c s vs H. apply (AgentMeets.run_mon_judged mc cc ops c s vs 6 H). cbn. tauto. Qed.
